@@ -395,10 +395,14 @@ def compare(what, got_v, got_m, exp_v, exp_m, tol_abs=0.0, rtol=1e-12):
 # evaluating one aggregate on either cube type
 
 
-def call_agg(cube, agg, fact_arg, weights_arg, ignore, rma, N=None):
+def call_agg(cube, agg, fact_arg, weights_arg, ignore, rma, N=None, prob=None):
     ra = rma_arg(rma)
     if agg == "count":
         return cube.count(weights_arg, N=N, ignore_missing=ignore, return_missing_as=ra)
+    if agg in ("max", "min"):
+        return getattr(cube, agg)(fact_arg, ignore_missing=ignore, return_missing_as=ra)
+    if agg == "quantile":
+        return cube.quantile(fact_arg, prob, weights_arg, ignore_missing=ignore, return_missing_as=ra)
     return getattr(cube, agg)(fact_arg, weights_arg, ignore_missing=ignore, return_missing_as=ra)
 
 
